@@ -12,7 +12,16 @@ import cmath
 
 import numpy as np
 import numpy.typing as npt
-from scipy.special import sph_harm
+
+try:
+    from scipy.special import sph_harm
+except ImportError:  # scipy.special.sph_harm was removed in SciPy 1.17
+    from scipy.special import sph_harm_y
+
+    def sph_harm(m, n, theta, phi):
+        """legacy signature (order m, degree n, azimuthal theta, polar phi)"""
+        return sph_harm_y(n, m, phi, theta)
+
 
 # pylint: disable=invalid-name
 # pylint: disable=line-too-long
